@@ -171,6 +171,13 @@ func (fc *FnCtx) execInstr(fr *Frame, st *State, instr ssa.Instruction, edgeCond
 	return false
 }
 
+// obligeSafe emits a run-time safety obligation and then assumes it (the continuation is only
+// meaningful when the operation did not panic), so one defect is reported once.
+func (fc *FnCtx) obligeSafe(st *State, kind, detail string, goal Term, pos token.Pos, props []string, src string) {
+	fc.oblige(st, kind, detail, goal, pos, props, src)
+	fc.assume(st, goal)
+}
+
 type rangeIter struct {
 	x    *ssa.Range
 	coll Val
@@ -259,10 +266,10 @@ func (fc *FnCtx) execBinOp(fr *Frame, st *State, x *ssa.BinOp) Val {
 		fc.assume(st, rangeFact(v, x.Type()))
 		return v
 	case token.QUO:
-		fc.oblige(st, "div0", "", tNot(tEq(r, intLit(0))), x.Pos(), nil, "division by zero")
+		fc.obligeSafe(st, "div0", "", tNot(tEq(r, intLit(0))), x.Pos(), nil, "division by zero")
 		return fc.nameTerm("quo", wrapOnce(goDiv(l, r), x.Type()))
 	case token.REM:
-		fc.oblige(st, "div0", "", tNot(tEq(r, intLit(0))), x.Pos(), nil, "modulo by zero")
+		fc.obligeSafe(st, "div0", "", tNot(tEq(r, intLit(0))), x.Pos(), nil, "modulo by zero")
 		return fc.nameTerm("rem", goRem(l, r))
 	case token.EQL:
 		return tEq(l, r)
@@ -415,7 +422,7 @@ func (fc *FnCtx) execIndexAddr(fr *Frame, st *State, x *ssa.IndexAddr) Val {
 		return &Poison{"index address base"}
 	}
 	idx := fc.termOrHavoc(fr, st, x.Index, x)
-	fc.oblige(st, "index", "", tAnd(tLe(intLit(0), idx), tLt(idx, slLen(sl))), x.Pos(), nil, "index in range")
+	fc.obligeSafe(st, "index", "", tAnd(tLe(intLit(0), idx), tLt(idx, slLen(sl))), x.Pos(), nil, "index in range")
 	elem := x.Type().(*types.Pointer).Elem()
 	es := sortOf(elem)
 	if n, ok := isStructVal(elem); ok && namedPath(elem) != "time.Time" {
@@ -481,7 +488,7 @@ func (fc *FnCtx) execSlice(fr *Frame, st *State, x *ssa.Slice) Val {
 	if x.Max != nil {
 		mx = fc.termOrHavoc(fr, st, x.Max, x)
 	}
-	fc.oblige(st, "slice", "", tAnd(tLe(intLit(0), lo), tLe(lo, hi), tLe(hi, mx), tLe(mx, slCap(sl))), x.Pos(), nil, "slice bounds in range")
+	fc.obligeSafe(st, "slice", "", tAnd(tLe(intLit(0), lo), tLe(lo, hi), tLe(hi, mx), tLe(mx, slCap(sl))), x.Pos(), nil, "slice bounds in range")
 	return fc.nameTerm("sl", mkSlice(slArr(sl), tAdd(slOff(sl), lo), tSub(hi, lo), tSub(mx, lo)))
 }
 
@@ -489,12 +496,12 @@ func (fc *FnCtx) execMakeSlice(fr *Frame, st *State, x *ssa.MakeSlice) Val {
 	ln := fc.termOrHavoc(fr, st, x.Len, x)
 	cp := fc.termOrHavoc(fr, st, x.Cap, x)
 	if isByteSlice(x.Type()) {
-		fc.oblige(st, "make", "", tAnd(tLe(intLit(0), ln), tLe(ln, cp), tLe(cp, bigLit(maxLenS))), x.Pos(), nil, "make: len/cap in range")
+		fc.obligeSafe(st, "make", "", tAnd(tLe(intLit(0), ln), tLe(ln, cp), tLe(cp, bigLit(maxLenS))), x.Pos(), nil, "make: len/cap in range")
 		b := fc.fresh("mkbytes", SBytes)
 		fc.assume(st, tEq(app(SInt, "blen", b), ln))
 		return b
 	}
-	fc.oblige(st, "make", "", tAnd(tLe(intLit(0), ln), tLe(ln, cp), tLe(cp, bigLit(maxLenS))), x.Pos(), nil, "make: len/cap in range")
+	fc.obligeSafe(st, "make", "", tAnd(tLe(intLit(0), ln), tLe(ln, cp), tLe(cp, bigLit(maxLenS))), x.Pos(), nil, "make: len/cap in range")
 	arr := fc.allocRef(st)
 	es := sortOf(x.Type().Underlying().(*types.Slice).Elem())
 	// elements are zero-initialised
